@@ -17,6 +17,8 @@ import (
 
 	"github.com/Oneledger/protocol/action"
 	"github.com/Oneledger/protocol/data/governance"
+	"github.com/Oneledger/protocol/identity"
+	"github.com/Oneledger/protocol/serialize"
 )
 
 func init() { subcmds["c02"] = c02Main }
@@ -68,6 +70,7 @@ type c02Runner struct {
 	prefix   map[string]int
 	nonce    int
 	users    map[string]Key
+	blockVals []*identity.Validator // validator records of the committed state at block start (the election queue's source)
 }
 
 func (r *c02Runner) memo() string { r.nonce++; return fmt.Sprintf("c02m%d", r.nonce) }
@@ -123,6 +126,19 @@ func (r *c02Runner) block(in *BlockIn, descr []string) {
 	sort.Ints(jb.Absent)
 	r.c.Spec.Blocks = append(r.c.Spec.Blocks, jb)
 
+	// the queue of BeginBlock(h) is built from the v_ records at version h-1 = the committed tree now
+	r.blockVals = nil
+	if r.rep.H >= 1 {
+		d := r.rep.Dump()
+		for _, k := range sortedKeys(d) {
+			if strings.HasPrefix(k, "v_") {
+				val := &identity.Validator{}
+				if serialize.GetSerializer(serialize.JSON).Deserialize([]byte(d[k]), val) == nil {
+					r.blockVals = append(r.blockVals, val)
+				}
+			}
+		}
+	}
 	before := r.cur
 	r.rep.BeginBlock(in)
 	after := r.observe()
@@ -134,6 +150,11 @@ func (r *c02Runner) block(in *BlockIn, descr []string) {
 	r.cur = after
 	for i, tx := range in.Txs {
 		before = r.cur
+		var pre c02Pre
+		stx0 := &action.SignedTx{}
+		if c02Deserialize(tx, stx0) == nil {
+			pre = c02PreTx(r, before, stx0)
+		}
 		res := r.rep.DeliverTx(tx)
 		after = r.observe()
 		s = r.step(1, before, after)
@@ -167,7 +188,9 @@ func (r *c02Runner) block(in *BlockIn, descr []string) {
 				}
 			}
 			s.TK, s.Amt = c02KindAmount(stx)
-			s.Model = c02ModelTx(r, before, stx, res.GasUsed, s.OK)
+			if pre != nil {
+				s.Model = pre(res.GasUsed, s.OK)
+			}
 		} else {
 			s.Type = "undecodable"
 		}
@@ -212,6 +235,23 @@ func c02Witness(name string, w *World) *History {
 		s.empty(2)
 		s.block([][]byte{txPropCreate(u0, "wneg", governance.ProposalTypeGeneral, oltAmt("1000000000"), 30, 0, s.memo())}, "prop create")
 		s.block([][]byte{txPropFund(u1, "wneg", oltAmt("7000"), s.memo()), txPropFund(u2, "wneg", oltAmt("-5000000000000000000"), s.memo())}, "prop fund 7000", "prop fund -5 OLT")
+		s.empty(1)
+	case "withdraw_funds_negative":
+		// a proposal whose funding deadline passes below the goal: withdrawal becomes eligible; the funder then "withdraws"
+		// a NEGATIVE amount to a beneficiary who signs nothing
+		s.empty(2)
+		s.block([][]byte{txPropCreate(u0, "wwd", governance.ProposalTypeGeneral, oltAmt("1000000000"), 5, 0, s.memo())}, "prop create")
+		s.block([][]byte{txPropFund(u1, "wwd", oltAmt("7000"), s.memo())}, "prop fund 7000")
+		s.empty(2)
+		s.block([][]byte{txPropWithdraw(u1, "wwd", oltAmt("-3000000000000000000"), u2.Addr, s.memo())}, "prop withdraw -3 OLT to beneficiary u2")
+		s.block([][]byte{txPropWithdraw(u1, "wwd", oltAmt("-1000000000000000000"), w.Poor[0].Addr, s.memo())}, "prop withdraw -1 OLT to a poor beneficiary")
+		s.empty(1)
+	case "withdraw_reward_negative":
+		// WITHDRAW_REWARD for a "validator" address that is no validator, negative amount, signed by an account holding 0.002 OLT
+		s.empty(2)
+		p := w.Poor[0]
+		s.block([][]byte{txWithdrawReward(ValSpec{Val: p, Stake: p}, oltAmt("-1"), s.memo())}, "withdraw validator reward -1 OLT by a poor non-validator")
+		s.block([][]byte{txWithdrawReward(w.Vals[0], oltAmt("-1"), s.memo())}, "withdraw validator reward -1 OLT by a validator's stake account")
 		s.empty(1)
 	case "two_finalized_in_one_block":
 		full := scenarioHistory("govupdate", w)
@@ -362,7 +402,7 @@ func c02Main(args []string) int {
 			}
 		}
 		world := [3]int{3, 5, 2}
-		for _, name := range []string{"proposal_fund_negative", "two_finalized_in_one_block"} {
+		for _, name := range []string{"proposal_fund_negative", "two_finalized_in_one_block", "withdraw_funds_negative", "withdraw_reward_negative"} {
 			w := NewWorld(world[0], world[1], world[2])
 			c, p := c02RunHistory("witness_"+name, world, c02Witness(name, w))
 			cases = append(cases, c)
